@@ -36,7 +36,7 @@ COMPONENTS = {"real": ["pel.peltool.peltool.main() / parsePEL in-process, all mo
                        "the 'fresh process': purge + re-import of the module set inside the same interpreter"]}
 ASSUMPTIONS = ["a pristine module set (purge + import) is a faithful stand-in for a fresh interpreter; validated against real subprocesses on plans without fake plugins",
                "stderr is compared only for absence of tracebacks (the one-shot 'Failed to find PEL creators components config file' line is legitimately history dependent and not part of the document)"]
-PROBES = ["op:f", "op:a", "op:l", "op:bmc", "op:pp", "op:j", "damaged_before_good", "fault_before_same_module", "skip_then_enable",
+PROBES = ["cut_multibyte_text", "op:f", "op:a", "op:l", "op:bmc", "op:pp", "op:j", "damaged_before_good", "fault_before_same_module", "skip_then_enable",
           "registry", "subprocess_crosschecks", "repeat_same_pel"]
 
 
@@ -50,6 +50,18 @@ def gen_plan(rng, tier, run):
         # the environment must be stateless here (any difference has to be the tool's own state): no transient
         # import failures, which make the plugin host itself history dependent
         spec.pop("transient", None)
+    if rng.random() < 0.2:
+        # a BMC text / JSON section that ends in the middle of a multi-byte character (a log cut at a size limit):
+        # that PEL fails to decode; the others must not notice
+        victim = rng.choice(pels)
+        victim["recipe"]["creator"] = "O"
+        victim["recipe"]["sections"] = [x for x in victim["recipe"]["sections"] if x["kind"] == "src"][:1] + [
+            {"kind": "ud", "id": "UD", "ver": 1, "subtype": rng.choice([1, 3]), "comp": 0x2000,
+             "payload": (b"temperature 21" + rng.choice([b"\xe2\x84", b"\xc2", b"\xf0\x9f\x98"])).hex(), "badjson": True}]
+        victim["damaged"] = True
+    for p in pels:
+        if not p.get("damaged") and p["recipe"]["creator"] == "O" and rng.random() < 0.5:
+            p["recipe"]["sections"].append(pelgen.gen_ud(rng, "O", [("O", 0x2000)]))
     bare = rng.random() < 0.12
     if bare:
         plugins = {}
@@ -176,13 +188,15 @@ def execute(plan):
             tgt = ""
             if "pel" in op:
                 p = plan["pels"][op["pel"]]
-                tgt = "dmg" if p.get("junk") else "ok"
+                tgt = "dmg" if (p.get("junk") or p.get("damaged")) else "ok"
                 if p["name"] in seen_pels:
                     bump("repeat_same_pel")
                 seen_pels.add(p["name"])
-                if not p.get("junk") and damaged_seen:
+                if not (p.get("junk") or p.get("damaged")) and damaged_seen:
                     bump("damaged_before_good")
-                damaged_seen = damaged_seen or bool(p.get("junk"))
+                damaged_seen = damaged_seen or bool(p.get("junk") or p.get("damaged"))
+                if p.get("damaged"):
+                    bump("cut_multibyte_text")
             if "-P" in op["flags"]:
                 skipped_seen = True
             elif skipped_seen:
